@@ -310,6 +310,11 @@ func genHostName(rng *rand.Rand) string {
 		return pick(rng, strings.Repeat("a", 63)+".com", strings.Repeat("a", 64)+".com", strings.Repeat("a", 64), strings.Repeat("a.", 126)+"b", strings.Repeat("a.", 127)+"b")
 	case 3:
 		return pick(rng, "a\xffb.com", "\xc3.com", "\xed\xa0\x80.x", "a\x00b", "a.b\r", "a\vb", "a b", "a\fb", "\r")
+	case 5:
+		if rng.IntN(2) == 0 {
+			return genCompactIDN(rng)
+		}
+		return genLongIDN(rng)
 	case 4:
 		return pick(rng, "localhost", "LOCALHOST", "Localhost.", "123", "a.123", "-a.com", "a-.com", "_srv._tcp.example", "a_b.com", ".", "..", "a..b", ".a")
 	default:
